@@ -262,7 +262,15 @@ func opsFor(s pSite) []pOp {
 				} else {
 					e = l.NewElement()
 				}
-				for i := 0; i < 1000; i++ {
+				// many elements, but the message stays far below the 32 MiB a peer can send
+				n := 1000
+				if sz := valSize(s.fd, e); sz*n > 1<<20 {
+					n = 1 + (1<<20)/sz
+				}
+				if l.Len() > 2000 {
+					n = 0
+				}
+				for i := 0; i < n; i++ {
 					l.Append(cloneVal(s.fd, e))
 				}
 			}},
@@ -327,6 +335,16 @@ func itoa(n int) string {
 		n /= 10
 	}
 	return s
+}
+
+func valSize(fd protoreflect.FieldDescriptor, v protoreflect.Value) int {
+	switch fd.Kind() {
+	case protoreflect.MessageKind:
+		return 8 + proto.Size(v.Message().Interface())
+	case protoreflect.BytesKind:
+		return 8 + len(v.Bytes())
+	}
+	return 8
 }
 
 func cloneVal(fd protoreflect.FieldDescriptor, v protoreflect.Value) protoreflect.Value {
